@@ -386,6 +386,29 @@ Section Theory.
       rewrite Hx in Hex. discriminate.
     Qed.
 
+    (* C15_safe in full, under the hypothesis that excludes exactly the two known
+       shapes: the member is not inside an @list/@set/@default value (D26, flag
+       false) and its key is not of the "contains ':' but is no absolute IRI" shape
+       (D27).  Then the key is a keyword or expands to an absolute, non-blank IRI. *)
+    Lemma defined_absolute cn k :
+      key_defined cn k = true -> colon_not_absolute cn k = false -> key_absolute cn k = true.
+    Proof.
+      unfold key_defined, colon_not_absolute, key_absolute, undefined_exp.
+      destruct (is_keyword (expand_key cn k)); [intros; reflexivity|].
+      destruct (String.eqb (expand_key cn k) ""); [discriminate|].
+      destruct (has_colon (expand_key cn k)); cbn; [|discriminate].
+      intros _ H. apply negb_false_iff in H. rewrite H. reflexivity.
+    Qed.
+
+    Theorem safe_ok_all_absolute d r :
+      merklize true d = Ok r ->
+      forall p cn k, doc_member true d p cn k false -> colon_not_absolute cn k = false ->
+      key_absolute cn k = true.
+    Proof.
+      intros H p cn k Ho Hc. apply defined_absolute; [|exact Hc].
+      eapply safe_ok_all_defined; eauto.
+    Qed.
+
     (* C15_safe_rejects *)
     Theorem safe_rejects_undefined d p cn k :
       doc_member true d p cn k false -> key_defined cn k = false ->
